@@ -5,7 +5,7 @@ Import ListNotations.
 
 (* For every carrier type T, every implementation Q of the trait's accessors and every
    representation function repr that makes Q a faithful view of JSON values (each accessor commutes
-   with repr; constructors produce the corresponding JSON; equality and the extension hook reflect
+   with repr -- for numbers: as_f64 with its fallback to as_i64 shows the same number; constructors produce the corresponding JSON; equality and the extension hook reflect
    the ones of serde_json::Value), evaluating any query over any t : T gives the same Ok/Err, and
    pointer by pointer the same path, the same location and a value whose representation is the
    value obtained by evaluating the query over repr t — in the same order. *)
@@ -23,6 +23,11 @@ Theorem C15_value_is_faithful : faithful json J (fun x => x).
 Proof. exact value_ops_faithful. Qed.
 Theorem C15_tagged_is_faithful : faithful tagged tagged_ops untag.
 Proof. exact tagged_faithful. Qed.
+
+(* ... and by an implementation whose as_f64 answers only for floats (integers are read through the
+   engine's fallback to as_i64): the trait does not say which style a data type must follow *)
+Theorem C15_disjoint_is_faithful : faithful json disjoint_ops (fun x => x).
+Proof. exact disjoint_faithful. Qed.
 
 (* hence, for instance, the tags of a decorated document cannot influence any result *)
 Corollary C15_tags_irrelevant : forall rx (t : tagged) (q : query),
